@@ -181,7 +181,8 @@ func (g *schemaGenerator) generateReferencedType(t *schemas.Type) (codegen.Type,
 			return nil, fmt.Errorf("%w: %q (from ref %q)", errDefinitionDoesNotExistInSchema, defName, t.Ref)
 		}
 
-		if len(def.Type) == 0 && len(def.Properties) == 0 && len(def.Enum) == 0 {
+		if len(def.Type) == 0 && len(def.Properties) == 0 && len(def.Enum) == 0 &&
+			len(def.AllOf) == 0 && len(def.AnyOf) == 0 {
 			return &codegen.EmptyInterfaceType{}, nil
 		}
 
